@@ -25,6 +25,11 @@ class SimRaise(Exception):
         self.k = k
 
 
+# (a block can also be left by GeneratorExit -- a generator suspended inside `with handle(...)` is closed --, which is no
+#  Exception subclass; the plain class is raised, its argument counts the blocks still to leave)
+SIM_EXITS = (SimRaise, GeneratorExit)
+
+
 _NONCE = [""]  # identifies the run a handler was made in (request types are the same objects in every run of a process)
 
 
@@ -125,7 +130,7 @@ class C14(Property):
             elif x < 0.52:
                 src = rng.choice(state["rts"] + ["current"]) if state["rts"] else "current"
                 ops.append({"op": "derive", "r": self._new_rt(state), "src": src, "overrides": self._tagmap(rng, state) or {"0": f"h{state['nrt']}_0"},
-                            "form": rng.choice(["pair", "mapping"])})
+                            "form": rng.choice(["pair", "mapping"]), "then_mutate": rng.random() < 0.3})
             elif x < 0.58:
                 ops.append({"op": "builtin", "r": self._new_rt(state), "which": rng.choice(["cache", "logging"])})
             elif x < 0.66:
@@ -151,7 +156,7 @@ class C14(Property):
                 else:
                     ops.append({"op": "run", "t": rng.randrange(NTYPES)})
             elif x < 0.88 and depth > 0:
-                ops.append({"op": "raise", "k": rng.randint(1, depth)})
+                ops.append({"op": "raise", "k": rng.randint(1, depth), **({"exc": "genexit"} if rng.random() < 0.25 else {})})
                 break  # the rest of this body would be dead code
             elif x < 0.92 and depth > 0:
                 ops.append({"op": "run_raise", "t": rng.randrange(NTYPES), "k": rng.randint(1, depth)})
@@ -305,12 +310,18 @@ class C14(Property):
                             probe(where + ":entered")
                             run_ops(op["body"], f"{path}{i}.")
                             stack.pop()
-                    except SimRaise as e:
+                    except SIM_EXITS as e:
                         stack.pop()
                         st["exc_exit"] = True
                         res.bump("exits_by_exception")
-                        e.k -= 1
-                        if e.k > 0:
+                        if isinstance(e, SimRaise):
+                            e.k -= 1
+                            left = e.k
+                        else:
+                            left = e.args[0] - 1
+                            e.args = (left,)
+                            res.bump("exits_by_generator_exit")
+                        if left > 0:
                             raise
                     probe(where + ":left")
                     continue
@@ -331,7 +342,7 @@ class C14(Property):
                                 b = parent_holds
                                 res.bump("inherit_calls")
                             self._thread_script(op["body"], res, shared, st, base_holds=b, base_obj=None, label=f"{where}>", inherited=bool(op.get("inherit")))
-                        except SimRaise:
+                        except SIM_EXITS:
                             pass
                         except BaseException as e:  # noqa: BLE001
                             err["e"] = repr(e)
@@ -363,6 +374,13 @@ class C14(Property):
                             objs[op["r"]] = objs[op["src"]].handle(ty, h)
                         else:
                             objs[op["r"]] = objs[op["src"]].handle(over)
+                    if op.get("then_mutate"):
+                        # the caller goes on using ITS dictionary (a scratch mapping reused for the next derivation): the runtime
+                        # derived from it took what it needed at that moment
+                        for ty in list(over):
+                            over[ty] = _handler("scratch-mapping-reused")
+                        over[types[(int(next(iter(op["overrides"]), 0)) + 1) % NTYPES]] = _handler("scratch-mapping-reused")
+                        res.bump("mappings_mutated_after_derive")
                     holds_of[op["r"]] = {**src_holds, **{int(t): tag for t, tag in op["overrides"].items()}}
                     # "a derived runtime holds the handlers of the runtime it was derived from plus its overrides", as a
                     # relation between what the two serve right now (exact also after a default was registered again)
@@ -454,7 +472,7 @@ class C14(Property):
                         res.violate("wrong-handler", where=where, type=op["t"], got=got, want=sorted(want) if isinstance(want, set) else want, stack=list(stack))
                         return
                 elif kind == "raise":
-                    raise SimRaise(op["k"])
+                    raise (GeneratorExit if op.get("exc") == "genexit" else SimRaise)(op["k"])
                 elif kind == "run_raise":
                     if expected(op["t"]) == "RAISE":
                         res.bump("handler_raised_through_blocks")
@@ -466,7 +484,7 @@ class C14(Property):
         probe(label + "start")
         try:
             run_ops(script_ops, "")
-        except SimRaise:
+        except SIM_EXITS:
             pass
         except KeyError as e:
             # a shrunk candidate that uses a runtime before creating it is not a valid history
